@@ -231,7 +231,7 @@ func GenCarrier(tier string, seed uint64) []*CCase {
 	}
 	n := 40
 	if tier == "thorough" {
-		n = 600
+		n = 3000
 	}
 	for _, kind := range []string{"grpc", "gin", "dubbo"} {
 		add(kind, true, "", "")
